@@ -144,3 +144,18 @@ package network
 //@   requires d.DefaultDesiredPriv != "" && RI(d.Channel.Q) && d.Channel.PromptSearchDepth >= 0 && graphOK(d) && (forall k int :: 0 <= k && k < len(events) ==> events[k] != nil)
 //@   at call! SendInteractive#1 assert #interactive-sends-run-at-the-requested-or-default-level acquired == (op.PrivilegeLevel != "" ? op.PrivilegeLevel : d.DefaultDesiredPriv) && arg0 === events && arg1 === opts
 //@   ensures #nil-on-privilege-failure acquired == "" ==> result.0 == nil && result.1 != nil
+
+// ---- C19: the network constructor builds the generic driver from the same host and options, applies every option in order to
+// the network driver, refuses to go on without levels and a default level, and builds the privilege graph -----------------------
+//@ func (*Driver).UpdatePrivileges
+//@   noverify
+// optBase: ghost - the option log as the generic constructor left it
+//@ ghost optBase []int
+//@ func NewDriver [C19 C04]
+//@   at call! NewDriver#1 assert #the-generic-driver-gets-the-host-and-all-options arg0 == host && arg1 === opts
+//@   after call NewDriver#1 set optBase = optlog
+//@   loop 1 invariant -1 <= rangeindex && rangeindex < len(opts) && isnew(d) && d != nil
+//@   loop 1 invariant #every-option-applied-in-order optlog == optBase ++ applied(opts, box("*network.Driver", d), rangeindex + 1)
+//@   at call! UpdatePrivileges#1 assert #the-privilege-graph-is-built-only-with-levels-and-a-default-level recv == d && d.DefaultDesiredPriv != "" && len(d.PrivilegeLevels) > 0
+//@   at return assert #no-levels-or-no-default-level-is-a-bad-option result.1 == nil ==> result.0 == d
+//@   ensures #nil-on-error result.1 != nil ==> result.0 == nil
